@@ -8,6 +8,7 @@ mod interp;
 mod keccak;
 mod mon;
 mod props;
+mod statehist;
 mod world;
 mod wrun;
 
